@@ -6,6 +6,8 @@
 
 #include <algorithm>
 #include <memory>
+#include <sys/wait.h>
+#include <unistd.h>
 
 #include "libphysica/Numerics.hpp"
 
@@ -43,9 +45,14 @@ enum Probe
 	P_TOL_COMPARE,
 	P_SWEEP,
 	P_BIGN,
+	P_PRISTINE,
+	P_CROSS_TABLE,
+	P_MOVE_ASSIGN,
+	P_SWAP,
+	P_ZERO_PREF,
 	P_NPROBES
 };
-const char* PROBE_NAMES[] = {"locate_hunt_up", "locate_hunt_down", "locate_bisection", "locate_same_segment", "locate_extrapolation_zone", "query_at_knot", "query_at_knot_while_correlated", "query_at_nextafter_of_knot", "copy_construct", "assign_into_object_of_other_table", "self_assign", "copy_then_destroy_original", "prefactor_negative_set", "prefactor_tiny_or_huge_set", "extremum_query_spanning_3plus_knots", "extremum_or_integral_limit_in_extrapolation_zone", "integral_spanning_many_pieces", "integral_reversed_limits", "query_under_prefactor_not_1", "query_under_negative_prefactor", "run_is_2d", "oracle_comparisons", "bit_exact_comparisons", "tolerance_comparisons_at_knots", "sweep_ops", "table_200_or_more_points"};
+const char* PROBE_NAMES[] = {"locate_hunt_up", "locate_hunt_down", "locate_bisection", "locate_same_segment", "locate_extrapolation_zone", "query_at_knot", "query_at_knot_while_correlated", "query_at_nextafter_of_knot", "copy_construct", "assign_into_object_of_other_table", "self_assign", "copy_then_destroy_original", "prefactor_negative_set", "prefactor_tiny_or_huge_set", "extremum_query_spanning_3plus_knots", "extremum_or_integral_limit_in_extrapolation_zone", "integral_spanning_many_pieces", "integral_reversed_limits", "query_under_prefactor_not_1", "query_under_negative_prefactor", "run_is_2d", "oracle_comparisons", "bit_exact_comparisons", "tolerance_comparisons_at_knots", "sweep_ops", "table_200_or_more_points", "comparisons_with_a_pristine_process", "same_argument_asked_of_another_table_first", "move_assignment", "swap_of_two_objects", "query_under_zero_prefactor"};
 
 enum Metric
 {
@@ -211,7 +218,7 @@ double apply_hist(const std::vector<std::pair<int, double>>& h)
 	return p;
 }
 
-const std::vector<std::string> OPKINDS = {"interp", "call", "deriv", "integ", "lmin", "lmax", "gmin", "gmax", "locate", "setpref", "mul", "copy", "sweep"};
+const std::vector<std::string> OPKINDS = {"interp", "call", "deriv", "integ", "lmin", "lmax", "gmin", "gmax", "locate", "setpref", "mul", "copy", "sweep", "xprobe"};
 int kind_id(const std::string& k)
 {
 	for(size_t i = 0; i < OPKINDS.size(); i++)
@@ -261,6 +268,163 @@ struct Exec
 	{
 		c09 = ctx.prop_is("C09");
 		c08 = ctx.prop_is("C08");
+	}
+
+	// ---- pristine-process oracle: a server forked before this process ever called libphysica answers each request in a
+	// freshly forked worker, i.e. in a process image whose process-global state (function statics etc.) is untouched
+	struct Req
+	{
+		int32_t kind, k, has_pref, pad;
+		double a, b, net;
+	};
+	struct Resp
+	{
+		double value;
+		int64_t ok;
+	};
+	int ref_req = -1, ref_resp = -1;
+	std::unique_ptr<Interpolation> cross;	// an object on the alternative table that is asked the same argument first
+	void start_reference_server()
+	{
+		int rq[2], rs[2];
+		if(pipe(rq) != 0 || pipe(rs) != 0)
+			return;
+		fflush(nullptr);
+		pid_t pid = fork();
+		if(pid == 0)
+		{
+			close(rq[1]);
+			close(rs[0]);
+			Req q;
+			while(read(rq[0], &q, sizeof q) == (ssize_t) sizeof q)
+			{
+				pid_t w = fork();
+				if(w == 0)
+				{
+					alarm(60);
+					Resp a{0.0, 1};
+					if(!tab.two_d)
+					{
+						Interpolation F = make1d(tab);
+						if(q.has_pref)
+							F.Set_Prefactor(q.net);
+						a.value = q.kind == 0 ? F.Interpolate(q.a) : q.kind == 2 ? F.Derivative(q.a, (unsigned) q.k) : q.kind == 3 ? F.Integrate(q.a, q.b) : q.kind == 8 ? (double) F.Locate(q.a) : 0.0;
+					}
+					else
+					{
+						Interpolation_2D F = make2d(tab);
+						if(q.has_pref)
+							F.Set_Prefactor(q.net);
+						a.value = F.Interpolate(q.a, q.b);
+					}
+					if(write(rs[1], &a, sizeof a) != (ssize_t) sizeof a) {}
+					_exit(0);
+				}
+				int st = 0;
+				while(waitpid(w, &st, 0) < 0) {}
+				if(!(WIFEXITED(st) && WEXITSTATUS(st) == 0))
+				{
+					Resp a{0.0, 0};
+					if(write(rs[1], &a, sizeof a) != (ssize_t) sizeof a) {}
+				}
+			}
+			_exit(0);
+		}
+		close(rq[0]);
+		close(rs[1]);
+		ref_req	 = rq[1];
+		ref_resp = rs[0];
+	}
+	bool pristine(int kind, int k, double a, double b, const Slot& s, double& out)
+	{
+		if(ref_req < 0)
+			return false;
+		Req q{kind, k, s.hist.empty() ? 0 : 1, 0, a, b, s.net};
+		if(write(ref_req, &q, sizeof q) != (ssize_t) sizeof q)
+			return false;
+		Resp r;
+		if(read(ref_resp, &r, sizeof r) != (ssize_t) sizeof r)
+			return false;
+		if(!r.ok)
+			ctx.violate("C09:terminated-on-valid-request", "a single query on a freshly constructed object in a pristine process did not return");
+		out = r.value;
+		ctx.probe(P_PRISTINE);
+		return true;
+	}
+
+	void exec_xprobe(const Op& o, Slot& s)
+	{
+		// i: slot, query kind (0 interp, 2 deriv, 3 integ, 8 locate), derivative order ; d: x [, b]
+		int qk = o.i.size() > 1 ? (int) o.i[1] : 0;
+		unsigned k = o.i.size() > 2 ? (unsigned) o.i[2] : 1;
+		double a = o.d.at(0), b = o.d.size() > 1 ? o.d[1] : a;
+		note_pref(s);
+		if(!tab.two_d)
+		{
+			const std::vector<double>& xs = tab.xs;
+			if(!arg_valid(xs, a) || !arg_valid(xs, b))
+				return;
+			// the same argument is first asked of an object built on ANOTHER table (state shared between objects shows here)
+			if(have_alt && !alt.two_d && arg_valid(alt.xs, a) && arg_valid(alt.xs, b))
+			{
+				if(!cross)
+					cross.reset(new Interpolation(make1d(alt)));
+				ctx.probe(P_CROSS_TABLE);
+				if(qk == 0)
+					(void) cross->Interpolate(a);
+				else if(qk == 2)
+					(void) cross->Derivative(a, k);
+				else if(qk == 3)
+					(void) cross->Integrate(a, b);
+				else
+					(void) cross->Locate(a);
+			}
+			bool knot = is_knot(xs, a) || (qk == 3 && is_knot(xs, b));
+			track(s, s.mx, xs, a, 13, is_knot(xs, a));
+			double u = qk == 0 ? s.o1->Interpolate(a) : qk == 2 ? s.o1->Derivative(a, k) : qk == 3 ? s.o1->Integrate(a, b) : (double) s.o1->Locate(a);
+			ctx.log.f64(u);
+			double f;
+			if(!c09 || !pristine(qk == 0 ? 0 : qk == 2 ? 2 : qk == 3 ? 3 : 8, (int) k, a, b, s, f))
+				return;
+			if(qk == 8)
+			{
+				long kn = (long) (std::lower_bound(xs.begin(), xs.end(), a) - xs.begin());
+				bool ok = knot ? std::labs((long) u - (long) f) <= 1 && ((long) u == kn || (long) u == kn - 1 || (kn == 0 && (long) u == 0)) : u == f;
+				if(!ok)
+					ctx.violate("C09:pristine-process:locate", fmt("Locate(%.17g): object with history returned %g, a fresh object in a pristine process %g", a, u, f) + where(o));
+				return;
+			}
+			double scale = 0;
+			if(knot)
+			{
+				if(qk == 3)
+				{
+					double lo = std::min(a, b), hi = std::max(a, b);
+					long j0 = std::max(0l, seg_of(xs, lo) - 1), j1 = std::min((long) xs.size() - 1, seg_of(xs, hi) + 2);
+					for(long j = j0; j < j1; j++)
+						scale += std::fabs(s.net) * 20 * std::max(std::fabs(tab.fs[j]), std::fabs(tab.fs[j + 1])) * (std::fabs(xs[j]) + std::fabs(xs[j + 1]) + (xs[j + 1] - xs[j]));
+				}
+				else
+				{
+					long kn	  = (long) (std::lower_bound(xs.begin(), xs.end(), a) - xs.begin());
+					Scales sc = knot_scales(tab, kn, s.net);
+					scale	  = (qk != 2 || k == 0) ? sc.val : k == 1 ? sc.d1 : k == 2 ? sc.d2 : sc.d3;
+				}
+			}
+			compare(o, qk == 0 ? "Interpolate (vs pristine process)" : qk == 2 ? "Derivative (vs pristine process)" : "Integrate (vs pristine process)", u, f, knot, scale, "C09:pristine-process:nonknot", "C09:pristine-process:knot");
+		}
+		else
+		{
+			if(!arg_valid(tab.xs, a) || !arg_valid(tab.ys, b))
+				return;
+			bool knot = is_knot(tab.xs, a) || is_knot(tab.ys, b);
+			double u  = s.o2->Interpolate(a, b);
+			ctx.log.f64(u);
+			double f;
+			if(!c09 || knot || !pristine(0, 0, a, b, s, f))
+				return;
+			compare(o, "Interpolation_2D::Interpolate (vs pristine process)", u, f, false, 0, "C09:pristine-process:nonknot", "");
+		}
 	}
 
 	int live_slot(long want)
@@ -385,6 +549,8 @@ struct Exec
 			ctx.probe(P_Q_UNDER_NEG);
 			saw_neg = true;
 		}
+		if(s.net == 0)
+			ctx.probe(P_ZERO_PREF);
 	}
 
 	// ---------------- C08 references
@@ -952,6 +1118,13 @@ struct Exec
 			ctx.probe(P_2D_RUN);
 		if(tab.N() >= 200)
 			ctx.probe(P_BIGN);
+		if(c09)
+			for(auto& o : plan.ops)
+				if(o.kind == "xprobe")
+				{
+					start_reference_server();	// forked now: this process has not called libphysica yet
+					break;
+				}
 		slots[0].live = true;
 		if(tab.two_d)
 			slots[0].o2.reset(new Interpolation_2D(make2d(tab)));
@@ -1017,7 +1190,21 @@ struct Exec
 				else
 				{
 					Slot& d = slots[di];
-					if(mode == 1)
+					if(mode == 5 && d.live)
+					{
+						// std::swap of two live objects (move construction + two move assignments): the two slots trade places
+						ctx.probe(P_SWAP);
+						if(tab.two_d)
+							std::swap(*s.o2, *d.o2);
+						else
+							std::swap(*s.o1, *d.o1);
+						std::swap(s.hist, d.hist);
+						std::swap(s.net, d.net);
+						std::swap(s.mx, d.mx);
+						std::swap(s.my, d.my);
+						continue;
+					}
+					if(mode == 1 || mode == 4)
 					{
 						// copy-assign into an existing, already used object: built on the plan's alternative table (other size, or same
 						// shape and domain with other interior abscissae / other ordinates, or default-constructed) when there is one
@@ -1050,7 +1237,16 @@ struct Exec
 							if(have_alt || alt_default)
 								ctx.probe(P_ASSIGN_OTHER);
 						}
-						if(tab.two_d)
+						if(mode == 4)
+						{
+							// move assignment; the moved-from source is not used again (destroyed below)
+							ctx.probe(P_MOVE_ASSIGN);
+							if(tab.two_d)
+								*d.o2 = std::move(*s.o2);
+							else
+								*d.o1 = std::move(*s.o1);
+						}
+						else if(tab.two_d)
 							*d.o2 = *s.o2;
 						else
 							*d.o1 = *s.o1;
@@ -1069,7 +1265,7 @@ struct Exec
 					d.mx	  = s.mx;
 					d.my	  = s.my;
 					d.is_copy = true;
-					if(mode == 3)
+					if(mode == 3 || mode == 4)
 					{
 						// the original is destroyed; later ops naming it are served by a live copy
 						ctx.probe(P_MOVE);
@@ -1081,6 +1277,8 @@ struct Exec
 			}
 			else if(kid == 12)
 				exec_sweep(o, s);
+			else if(kid == 13)
+				exec_xprobe(o, s);
 			else if(tab.two_d)
 				exec_query_2d(o, s, kid);
 			else
@@ -1373,8 +1571,34 @@ struct Gen
 		{
 			// the object that copy-assignments overwrite: a small unrelated table, a table of the SAME shape and domain with other
 			// interior abscissae and ordinates, the same abscissae with other ordinates, or a default-constructed object
-			int variant = (int) r.below(4);
-			if(variant == 0)
+			int variant = (int) r.below(5);
+			if(variant == 4 && !two_d && tab.x.size() <= 400)
+			{
+				// same domain, about twice as many points (every interval halved): indices and sizes differ, arguments stay valid
+				Table alt = tab;
+				alt.x.clear();
+				for(size_t i = 0; i + 1 < tab.x.size(); i++)
+				{
+					alt.x.push_back(tab.x[i]);
+					double m = 0.5 * (tab.x[i] + tab.x[i + 1]);
+					if(m > tab.x[i] && m < tab.x[i + 1])
+						alt.x.push_back(m);
+				}
+				alt.x.push_back(tab.x.back());
+				alt.f = ordinates(r, alt.x.size());
+				alt.derive();
+				bool ok = true;
+				for(size_t i = 1; i < alt.xs.size(); i++)
+					ok = ok && alt.xs[i] > alt.xs[i - 1];
+				if(ok)
+					p.ops.push_back(table_op("alt", alt));
+			}
+			else if(variant == 4)
+				variant = 1;
+			if(variant == 4)
+			{
+			}
+			else if(variant == 0)
 				p.ops.push_back(table_op("alt", make_table(r, two_d, true)));
 			else if(variant == 3)
 				p.ops.push_back(Op("altdefault"));
@@ -1480,7 +1704,22 @@ struct Gen
 			if(two_d && cat == 2)
 				cat = 3;
 			Op o;
-			if(cat == 0)
+			if(cat == 0 && !c08 && r.chance(0.05))
+			{
+				// a query that is also put to a fresh object in a pristine PROCESS (and, just before, to an object on another table)
+				double x = next_point(r, c, tab.xs, c.cursor);
+				if(two_d)
+					o = Op("xprobe", {c.slot, 0, 0}, {x, next_point(r, c, tab.ys, c.cursor_y)});
+				else
+				{
+					int qk = (int) r.pick(std::vector<long long>{0, 2, 2, 2, 3, 8});
+					if(qk == 3)
+						o = Op("xprobe", {c.slot, 3, 0}, {x, next_point(r, c, tab.xs, c.cursor)});
+					else
+						o = Op("xprobe", {c.slot, qk, (long long) r.irange(1, 3)}, {x});
+				}
+			}
+			else if(cat == 0)
 			{
 				double x = next_point(r, c, tab.xs, c.cursor);
 				if(two_d)
@@ -1538,8 +1777,29 @@ struct Gen
 			{
 				double f  = prefactor(r);
 				bool set  = r.chance(0.5);
+				bool zero_game = false;
+				if(net[c.slot] == 0.0)
+				{
+					// the prefactor is exactly zero: multiply it (stays zero, either sign) or set it to something again
+					zero_game = true;
+					set		  = r.chance(0.5);
+					if(f == 0.0)
+						f = -2.0;
+				}
+				else if(r.chance(0.03))
+				{
+					// reach zero: directly, or by underflow of two tiny factors
+					zero_game = true;
+					if(r.chance(0.5))
+						f = 0.0;
+					else
+					{
+						f	= r.sign() * 1e-200;
+						set = false;
+					}
+				}
 				double nn = set ? f : net[c.slot] * f;
-				if(!(std::fabs(nn) > 1e-60 && std::fabs(nn) < 1e60))
+				if(!zero_game && !(std::fabs(nn) > 1e-60 && std::fabs(nn) < 1e60))
 				{
 					set = true;
 					nn	= f;
@@ -1549,18 +1809,22 @@ struct Gen
 			}
 			else if(cat == 6)
 			{
-				int mode = (int) r.below(4);
+				int mode = (int) r.pick(std::vector<long long>{0, 1, 1, 2, 3, 4, 5});
 				int dst	 = (int) r.below(4);
+				if(mode == 5 && (!live[dst] || dst == c.slot))
+					mode = 0;	// swap needs two live objects
 				if(mode == 2)
 					dst = c.slot;
 				else if(dst == c.slot)
 					dst = (dst + 1) % 4;
 				o = Op("copy", {c.slot, dst, mode});
-				if(mode != 2)
+				if(mode == 5)
+					std::swap(net[dst], net[c.slot]);
+				else if(mode != 2)
 				{
 					live[dst] = true;
 					net[dst]  = net[c.slot];
-					if(mode == 3)
+					if(mode == 3 || mode == 4)
 					{
 						live[c.slot] = false;
 						for(auto& cc : cl)
